@@ -37,6 +37,8 @@ def io_summaries(prog):
         if isinstance(arg, GenCallV):
             # a pipeline written as a generator function: summarised like the equivalent generator expression
             arg = it.generator_as_iter(arg, node) or arg
+        if getattr(arg, 'late', None) is not None:
+            arg = it.regen_genexp(arg)        # consumed here: its late-bound names have the values of now
         it.user.setdefault('write_many', []).append((self_obj, arg))
         return ConstV(None)
 
